@@ -45,6 +45,8 @@ def stepLine (s : St) (line : String) : St × String :=
   match tokens line with
   | ["case", "cache-mem", d] => match parseInt d with
     | some d => ({ c := {}, dur := d * 1000 }, "case") | none => (s, "bad-op")
+  | ["case", "cache-mem-ms", d] => match parseInt d with     -- a duration given in milliseconds
+    | some d => ({ c := {}, dur := d }, "case") | none => (s, "bad-op")
   | "case" :: _ => ({ c := {}, modelled := false }, "case")
   | toks =>
     if !s.modelled then (s, "unmodelled") else
